@@ -172,3 +172,10 @@ func (c *Canary) VerifClose() {
 
 	syscall.Close(c.epfd)
 }
+
+// VerifAddInterface makes the addresses of a further interface count as the
+// sensor's own (isMe), so that one source can probe two sensor addresses.
+// Frames are still exchanged over the descriptor of the first interface.
+func (c *Canary) VerifAddInterface(intf net.Interface) {
+	c.networkInterfaces = append(c.networkInterfaces, intf)
+}
